@@ -50,7 +50,7 @@ type vStoreSys struct {
 	compacts int
 	nBg      int // Compact / Tick operations used (bounded in c09 mode)
 	nRemOps  int
-	nFault   int // flushes with an injected file-system fault (c09 mode, at most one per history)
+	nFault   int               // flushes with an injected file-system fault (c09 mode, at most one per history)
 	segNames map[string]string // every segment file ever created -> content hash when completed
 	logSeen  int
 }
@@ -76,7 +76,12 @@ func (s *vStoreSys) Reset() {
 	var err error
 	s.st, err = s.env.open(s.cfg.config())
 	if err != nil || s.env.dead != "" {
-		panic(fmt.Sprintf("cannot open store: %v %s", err, s.env.dead))
+		// opening a fresh, unowned directory must succeed: a violation, not a harness failure
+		s.c.Violation("initial-open-failed", "", s.cfgS, nil, fmt.Sprintf("OpenPersistentHybridIndex on a fresh directory %q: %v %s", vStoreDir, err, s.env.dead))
+		if s.env.dead == "" {
+			s.env.dead = "initial open failed"
+		}
+		s.st = nil
 	}
 }
 
@@ -215,6 +220,36 @@ func vC09FaultSweep(c *vCtx, cfg vStoreCfg) {
 	}
 }
 
+// vC09DirNames: the base directory's NAME is user input. For every name of vStoreDirNames
+// a three-session history (add, flush, add, close, reopen, search, add, close, reopen,
+// close, reopen) runs with the complete C09 oracle.
+func vC09DirNames(c *vCtx) {
+	old := vStoreDir
+	defer func() { vStoreDir = old }()
+	add := func(id, doc int) vOp { return vOp{K: "AddWithID", A: id, B: doc} }
+	hist := []vOp{add(1, 0), {K: "Flush"}, add(2, 1), {K: "CloseReopen"}, {K: "Search"}, add(3, 2), {K: "CloseReopen"}, {K: "CloseReopen"}}
+	for _, name := range vStoreDirNames {
+		for _, cfg := range []vStoreCfg{{Mem: 2, Thr: 1, Comp: 1000000, Tmpl: "vtm", Vec: "flat"}, {Mem: 0, Thr: 0, Comp: 1000000, Tmpl: "v", Vec: "flat"}} {
+			vStoreDir = name
+			s := &vStoreSys{c: c, cfg: cfg, cfgS: fmt.Sprintf("c09 %s dir=%q", cfg.String(), name), mode: "c09", maxAdd: 4, maxSess: 4}
+			s.Reset()
+			for i, op := range hist {
+				s.Apply(op, hist[:i], true)
+				c.Transitions++
+			}
+			if s.env != nil {
+				s.env.end()
+				s.env = nil
+			}
+			c.Traces++
+			c.NewState(s.cfgS)
+			c.Nontrivial(s.cfgS)
+		}
+	}
+	c.Sample(fmt.Sprintf("base directory names %q", vStoreDirNames))
+	c.Bound = fmt.Sprintf("%d directory names x 2 configurations x one 3-session history", len(vStoreDirNames))
+}
+
 func (s *vStoreSys) decodes() int { return vSegmentDecodes(s.env.fs) }
 
 func (s *vStoreSys) Apply(op vOp, hist []vOp, check bool) {
@@ -338,7 +373,7 @@ func (s *vStoreSys) Apply(op vOp, hist []vOp, check bool) {
 			}
 			// a Close that failed may have left the lock behind; the next session starts
 			// like a new process would (C10/C17 judge the lock itself)
-			s.env.fs.RemoveRaw(vStoreDir + "/LOCK")
+			s.env.fs.RemoveRaw(vLock())
 		} else {
 			for _, d := range s.live {
 				d.durable = true
@@ -669,6 +704,13 @@ func vStoreReplay(c *vCtx, v *vViolation) bool {
 	if strings.HasPrefix(v.Config, "sched ") {
 		return vSchedReplay(c, v)
 	}
+	if i := strings.Index(v.Config, " dir="); i >= 0 {
+		var name string
+		fmt.Sscanf(v.Config[i:], " dir=%q", &name)
+		old := vStoreDir
+		vStoreDir = name
+		defer func() { vStoreDir = old }()
+	}
 	mode := v.Config[:3]
 	cfg := vParseStoreCfg(v.Config[4:])
 	s := &vStoreSys{c: c, cfg: cfg, cfgS: v.Config, mode: mode, maxAdd: 4, maxSess: 4}
@@ -708,6 +750,7 @@ func init() {
 				cfg := cfg
 				sh = append(sh, vShard{Name: "c09/faults/" + strings.ReplaceAll(cfg.String(), " ", ","), Run: func(c *vCtx) { vC09FaultSweep(c, cfg) }})
 			}
+			sh = append(sh, vShard{Name: "c09/dirnames", Run: vC09DirNames})
 			sh = append(sh, vShard{Name: "c09/segment-identifiers", Run: func(c *vCtx) { vC09Identifiers(c, limit) }})
 			return sh
 		},
